@@ -184,7 +184,12 @@ func c18Check(c c18Case) *Violation {
 	case "search":
 		seq, q := []byte(c.Seq), []byte(c.Query)
 		var got []gts.Segment
-		if pi := guard(func() { got = gts.Search(gts.New(nil, nil, seq), gts.New(nil, nil, q)) }); pi != nil {
+		if pi := guard(func() {
+			got = gts.Search(gts.New(nil, nil, seq), gts.New(nil, nil, q))
+			// the hits are judged after another search ran (a result must not live in memory the next call re-uses)
+			gts.Search(gts.New(nil, nil, []byte("ttacgtacgtaa")), gts.New(nil, nil, []byte("acgt")))
+			gts.Match(gts.New(nil, nil, []byte("ttacgtacgtaa")), gts.New(nil, nil, []byte("ry")))
+		}); pi != nil {
 			return panicViolation(fmt.Sprintf("Search(%q,%q)", seq, q), pi)
 		}
 		var want []gts.Segment
@@ -203,7 +208,11 @@ func c18Check(c c18Case) *Violation {
 	case "match":
 		seq, q := []byte(c.Seq), []byte(c.Query)
 		var got []gts.Segment
-		if pi := guard(func() { got = gts.Match(gts.New(nil, nil, seq), gts.New(nil, nil, q)) }); pi != nil {
+		if pi := guard(func() {
+			got = gts.Match(gts.New(nil, nil, seq), gts.New(nil, nil, q))
+			gts.Match(gts.New(nil, nil, []byte("ttacgtacgtaa")), gts.New(nil, nil, []byte("ry")))
+			gts.Search(gts.New(nil, nil, []byte("ttacgtacgtaa")), gts.New(nil, nil, []byte("acgt")))
+		}); pi != nil {
 			return panicViolation(fmt.Sprintf("Match(%q,%q)", seq, q), pi)
 		}
 		hit := func(i int) bool {
